@@ -17,6 +17,8 @@ import hooks_checks
 import union_checks
 import twin_checks
 import recwarm_checks
+import litenum_checks
+import copyopt_checks
 
 CORE_A = ["Model/Base.v", "Model/Dispatch.v", "Model/Routing.v", "Model/DispLane.v", "Gen/DispatchSrc.v", "Gen/ConvSrc.v",
           "Proofs/DispatchProofs.v", "Proofs/RoutingProofs.v", "Proofs/SrcObligations.v"]
@@ -39,6 +41,7 @@ def _c08(v, b, tier):
 def _c18(v, b, tier):
     n = 90 * SIZES[tier]
     disp_checks.check_c18(v, b.t1_summary, n, 14 if tier == "quick" else 40)
+    copyopt_checks.copyopt_battery(v, "C18", 80 * SIZES[tier])
 
 
 def default_summary():
@@ -96,6 +99,7 @@ def _c17(v, b, tier):
 def _c10(v, b, tier):
     tpl_checks.check_c10(v, b.t1_summary, 60 * SIZES[tier], 5)
     tagged_checks.check_c10_tagged(v, 80 * SIZES[tier])
+    copyopt_checks.copyopt_battery(v, "C10", 60 * SIZES[tier])
 
 
 CORE_CONV = ["Model/Base.v", "Model/Templates.v", "Model/Conv.v", "Model/ConvSpec.v", "Model/ConvLane.v", "Model/HookTable.v", "Gen/GenSrc.v", "Gen/HooksSrc.v",
@@ -131,6 +135,12 @@ def _conv(prop, base):
         if prop == "C02":
             pass_checks.check_c02_passthrough(v, 60 * SIZES[tier])
         union_checks.union_battery(v, prop, 50 * SIZES[tier], b.t1_summary)
+        if prop in ("C01", "C02", "C03"):
+            litenum_checks.litenum_battery(v, prop, 40 * SIZES[tier])
+        if prop == "C03":
+            copyopt_checks.copyopt_battery(v, prop, 60 * SIZES[tier])
+        if prop == "C06":
+            tpl_checks.key_modes_classes(v, v.coverage.setdefault("key_modes", {}))
     return run
 
 
@@ -167,7 +177,8 @@ REGISTRY = {
                     "(valid payloads, extra keys, missing keys, bad values, non-mappings); every call is bracketed by a deep identity snapshot of the argument; non-trivial = every call; "
                     "distinct = sha1 of (operation, configuration, type, input)"},
     "C16": {"props_file": "Props/C16.v", "files": CORE_CONV + ["Model/Preconf.v", "Model/PreconfSpec.v", "Proofs/ConvSound.v", "Proofs/ConvPrim.v", "Proofs/PreconfProofs.v", "Proofs/UnstructProofs.v", "Proofs/ClassRoundtrip.v", "Proofs/ConvRoundtrip.v", "Proofs/JsonRoundtrip.v", "Proofs/ConvCfg.v", "Props/C16.v"],
-            "run": (lambda v, b, tier: (hooks_checks.check_hooks(v, b.t1_summary), pre_checks.check_c16(v, 40 * SIZES[tier], conv_checks.flags_of(b.t1_summary)))), "t1_sections": T1_CONV,
+            "run": (lambda v, b, tier: (hooks_checks.check_hooks(v, b.t1_summary), pre_checks.check_c16(v, 40 * SIZES[tier], conv_checks.flags_of(b.t1_summary)),
+                               copyopt_checks.preconf_copy_battery(v, pre_checks.FORMATS, 30 * SIZES[tier]))), "t1_sections": T1_CONV,
             "rule": "worlds as in the CONV lane with datetime / date leaves, no Any / untyped positions; per world 4 types x 2 values x every importable format (json, pyyaml, msgspec): "
                     "dumps, loads, deep equality -- skipped when the type is outside the format's limits (bool / float / bytes / class keys and int-valued enum keys in text formats, bytes "
                     "literals); for json additionally the model comparison; per world the user-hook battery: a hook pair registered for an attrs class and for a dataclass, used at top level, "
